@@ -32,9 +32,17 @@ impl Drop for Child { fn drop(&mut self) { if self.registered { bad(5); } } }
 /// `dirty` = a re-registration is owed (the wrapper returned Reregister, or remove()/replace()
 /// was called: "a re-registration is requested after each change").  While one is owed the only
 /// parent calls are reregister or unregister, as the loop would do.
-macro_rules! ts_step { ($ts:ident, $poll:ident, $fac:ident, $tok:ident, $parent:ident, $dirty:ident, $next_id:ident, $cur:ident) => {{
+macro_rules! ts_step { ($ts:ident, $poll:ident, $fac:ident, $tok:ident, $parent:ident, $dirty:ident, $next_id:ident, $cur:ident, $second_change:ident) => {{
     let op: u8 = kani::any();
-    if $dirty {
+    if $dirty && op >= 200 && !$second_change {
+        // a second change during the same processing (the documented "may be called at any time
+        // during processing"): e.g. the child just asked for Remove/Disable and the parent replaces
+        // or removes it before returning Reregister -- still ONE owed re-registration
+        $second_change = true;
+        if op & 1 == 0 { $ts.remove(); $cur = 0; }
+        else if $next_id < 4 { let was_none = $ts.is_none(); $ts.replace(Child { id: $next_id, registered: false, ret: PostAction::Continue }); $cur = if was_none { 0 } else { $next_id }; $next_id += 1; }
+    } else if $dirty {
+        $second_change = false;
         // the loop applies the owed re-registration (or the user disables/removes the parent)
         if op & 1 == 0 {
             if $parent { assert!(v_ok!($ts.reregister(&mut $poll, &mut $fac)), "C18.tr.reregister_ok"); }
@@ -93,9 +101,9 @@ fn $name() {
     let mut next_id: u8 = 2;
     // insertion registers the parent
     assert!(v_ok!(ts.register(&mut poll, &mut fac)), "C18.tr.register_ok");
-    let mut parent = true; let mut dirty = false;
+    let mut parent = true; let mut dirty = false; let mut second_change = false;
     unsafe { assert!(LIVE_REG == cur.min(1) && BAD == 0, "C18.tr.initial_child_registered_with_parent"); }
-    $( let _ = $s; ts_step!(ts, poll, fac, tok, parent, dirty, next_id, cur); )*
+    $( let _ = $s; ts_step!(ts, poll, fac, tok, parent, dirty, next_id, cur, second_change); )*
     kani::cover!(parent && !dirty);
     std::mem::forget(ts); std::mem::forget(poll);
 }
@@ -160,9 +168,10 @@ fn $name() {
     let mut ts = TransientSource { state: mk(parent) };
     kani::assume(inv_ok(&ts, parent));
     let mut dirty = owes_reregistration(&ts, parent) || kani::any::<bool>();
-    let mut next_id: u8 = 5;
+    let mut next_id: u8 = 3;
+    let mut second_change = false;
     let mut cur: u8 = ts.map(|c| c.id).unwrap_or(0);
-    ts_step!(ts, poll, fac, tok, parent, dirty, next_id, cur);
+    ts_step!(ts, poll, fac, tok, parent, dirty, next_id, cur, second_change);
     assert!(inv_ok(&ts, parent), "C18.ind.invariant_reestablished");
     if owes_reregistration(&ts, parent) { assert!(dirty, "C18.ind.pending_change_owes_reregistration"); }
     kani::cover!(parent);
